@@ -176,6 +176,54 @@ def run_c05(seed, focus):
     return result(problems, tried, "status/dry-run/run agree")
 
 
+def run_c06(seed, focus):
+    """C06 second sentence: after everything is complete, modifying one source or deleting one output makes the next
+    run submit exactly the consumers / the producer and everything downstream (plus targets without outputs)"""
+    problems, tried = [], 0
+    for wname, targets in WORKFLOWS.items():
+        deps = deps_of(targets)
+        dependents = {t["name"]: {u for u, ds in deps.items() if t["name"] in ds} for t in targets}
+
+        def up(names):
+            out, todo = set(), list(names)
+            while todo:
+                n = todo.pop()
+                if n not in out:
+                    out.add(n)
+                    todo.extend(dependents[n])
+            return out
+
+        perturbations = [("modify", "src.txt")] + [("delete", o) for t in targets for o in t["outputs"]]
+        for kind, f in perturbations:
+            tried += 1
+            p = Project(targets)
+            try:
+                prepare(p, targets, [], time.time() - 5000)
+                p.gwf("run")
+                p.drain()
+                rows = parse_status(p.gwf("status")[1])
+                n0 = len(p.slurm()["jobs"])
+                if kind == "modify":
+                    if not any("src.txt" in t["inputs"] for t in targets):
+                        continue
+                    p.touch("src.txt", time.time() + 100000)
+                    direct = {t["name"] for t in targets if "src.txt" in t["inputs"]}
+                else:
+                    os.unlink(p.path(f))
+                    direct = {t["name"] for t in targets if f in t["outputs"]}
+                p.gwf("run")
+                jobs = p.slurm()["jobs"]
+                new = sorted(j["name"] for jid, j in jobs.items() if int(jid) >= 1000 + n0)
+                want = sorted(up(direct) | {t["name"] for t in targets if not t["outputs"]})
+                if new != want:
+                    problems.append(f"{wname}: after everything completed, {kind} {f}: the next run submitted {new}, expected {want}")
+            finally:
+                p.close()
+            if problems:
+                return result(problems, tried, "re-run after one change")
+    return result(problems, tried, "re-run after one change")
+
+
 def run_c18(seed, focus):
     """spec hashes: recorded exactly on accepted submission / touch, erased by clean, untouched by previews"""
     problems, tried = [], 0
